@@ -173,6 +173,15 @@ def check_dt(acc, pendulum, z, f, kw, durations=True, fold=1):
     acc.c["evaluations"] += 1
     if (None if r is None else _obs(r)) != (None if (e1 := expected(z, f, kw, 1)) is None else e1) and e1 is not None:
         acc.mismatch("Duration-plus-dt", "value", case, None if r is None else _obs(r), e1)
+    # operands are values: after everything above was done WITH d, dt + d and dt - d answer as they did the first time
+    again = {"plus": _try(lambda: x + d), "minus": _try(lambda: x - d), "plus-again": _try(lambda: x + d)}
+    first_plus = expected(z, f, kw, 1)
+    for k, v in again.items():
+        want = first_plus if k.startswith("plus") else vals["minus-Duration"]
+        got = None if v is None else _obs(v)
+        acc.c["evaluations"] += 1
+        if want is not None and got != want:
+            acc.mismatch("operand-reused", k, case, got, want)
     for vname, mk in DERIVED:
         dv = _try(lambda: mk(pendulum, d))
         if dv is None:
